@@ -4,7 +4,8 @@
 (* network chunk at a time (Deliver) and is flushed at the end (Close).    *)
 (* State carried across chunks: an incomplete UTF-8 code point (carry),    *)
 (* a pending CR, the partial line, the lines of the current event (st),    *)
-(* plus the raw chunks as iter_bytes hands them on (raw).                  *)
+(* plus the raw chunks as iter_bytes hands them on (raw).  The decode step *)
+(* is parameterised by the charset the response declares (charset).        *)
 (*                                                                         *)
 (* ChunkIndependent: for EVERY chunking of every stream of the family the  *)
 (* items delivered at Close are the whole-stream meaning Expected(bytes)   *)
@@ -15,22 +16,26 @@ EXTENDS StreamCore
 CONSTANTS
   Streams,     \* set of [mode : {"sse","ndjson"}, bytes : Seq(0..255)]
   MaxFullLen,  \* streams up to this length get every subset of cut points
-  MaxCuts      \* longer streams get every chunking with at most this many cuts
+  MaxCuts,     \* longer streams get every chunking with at most this many cuts
+  AltFullLen,  \* the same two bounds for responses that declare a non-UTF-8 charset
+  AltMaxCuts
 
 VARIABLES
   mode, bytes, cuts,  \* the scenario (fixed by Init)
+  charset,            \* decode-step parameter: what the response's Content-Type declares ("utf8" | "latin1")
   pos,                \* bytes delivered so far
   carry, st,          \* decoder state
   raw,                \* chunks passed through unchanged (iter_bytes)
   closed
 
-vars == <<mode, bytes, cuts, pos, carry, st, raw, closed>>
+vars == <<mode, bytes, cuts, charset, pos, carry, st, raw, closed>>
 
 Init ==
   /\ \E s \in Streams :
        /\ mode = s.mode
        /\ bytes = s.bytes
-       /\ cuts \in CutSets(Len(s.bytes), MaxFullLen, MaxCuts)
+       /\ \/ charset = "utf8" /\ cuts \in CutSets(Len(s.bytes), MaxFullLen, MaxCuts)
+          \/ charset = "latin1" /\ cuts \in CutSets(Len(s.bytes), AltFullLen, AltMaxCuts)
   /\ pos = 0
   /\ carry = <<>>
   /\ st = S0
@@ -45,12 +50,12 @@ Deliver ==
   /\ pos < Len(bytes)
   /\ LET nxt == NextCut
          chunk == SubSeq(bytes, pos + 1, nxt)
-         d == DecodeChunk(carry, chunk)
+         d == DecodeChunkX(charset, carry, chunk)
      IN /\ pos' = nxt
         /\ carry' = d.carry
         /\ st' = FeedAll(mode, st, d.chars)
         /\ raw' = Append(raw, chunk)
-  /\ UNCHANGED <<mode, bytes, cuts, closed>>
+  /\ UNCHANGED <<mode, bytes, cuts, charset, closed>>
 
 Close ==
   /\ ~closed
@@ -58,7 +63,7 @@ Close ==
   /\ st' = FlushF(mode, st, carry)
   /\ carry' = <<>>
   /\ closed' = TRUE
-  /\ UNCHANGED <<mode, bytes, cuts, pos, raw>>
+  /\ UNCHANGED <<mode, bytes, cuts, charset, pos, raw>>
 
 Next == Deliver \/ Close
 Spec == Init /\ [][Next]_vars
@@ -66,13 +71,15 @@ Spec == Init /\ [][Next]_vars
 ----------------------------------------------------------------------------
 TypeOK ==
   /\ mode \in {"sse", "ndjson"}
+  /\ charset \in {"utf8", "latin1"}
+  /\ charset = "latin1" => carry = <<>>
   /\ pos \in 0..Len(bytes)
   /\ cuts \subseteq 1..(Len(bytes) - 1)
   /\ Len(carry) <= 3
   /\ closed \in BOOLEAN
 
 \* C18 (core): whatever the chunking, the delivered items are the meaning of the concatenation
-ChunkIndependent == closed => st.o = Expected(mode, bytes)
+ChunkIndependent == closed => st.o = ExpectedC(charset, mode, bytes)
 \* iter_bytes: the chunks handed on concatenate to the input
 BytesConcat == closed => FlattenSeq(raw) = bytes
 \* nothing is left behind after the flush
